@@ -1,4 +1,224 @@
-(* placeholder while the proofs are being written *)
-From Coq Require Import List NArith Bool.
-From GY Require Import Model.Registry Model.File Spec.C13.
-Theorem C13_placeholder : True. Proof. exact I. Qed.
+(* C13 — Names bind to the right module revision (parts a and b of the property).
+   Only statements, closed by [exact], refutation witnesses for defects of the pinned code,
+   and non-vacuity examples.  Part (c), include = inline, is NOT covered by these theorems.
+
+   (a) registry: Model/Registry.v  (Modules.add, lookup half of Modules.FindModule,
+       Module.Current / FullName) over all sequences of module headers;
+   (b) file chooser: Model/File.v (findInDir, findFile) over all directory trees.
+   Strings are byte lists compared as Go compares strings.  Module names are assumed to be
+   '@'-free ([names_ok], [at_free]): they are YANG identifiers. *)
+From Coq Require Import List NArith Bool Permutation.
+Import ListNotations.
+From GY Require Import Base.Outcome Model.Registry Model.File Spec.C13.
+From GY Require Import Proofs.RegistryProofs Proofs.FileProofs.
+
+(* ================================== (a) registry ===================================== *)
+
+(* the revision of a module is the greatest argument of its revision statements, whatever
+   their written order ("" when there is none) *)
+Theorem C13_current_is_greatest : forall revs,
+  (forall r, In r revs -> str_ltb (Current revs) r = false) /\
+  (Current revs = [] \/ In (Current revs) revs).
+Proof. intros revs. split; [exact (Current_ge revs)|exact (Current_in revs)]. Qed.
+
+(* T-a: after ANY load sequence every lookup (bare name, import/include without and with
+   revision-date) denotes what the specification says *)
+Theorem C13_lookup : forall hs k n rev,
+  names_ok hs = true -> at_free n = true ->
+  Registry.find (final hs) k n rev = spec_find hs k n rev.
+Proof. exact find_spec. Qed.
+
+(* bare name / import without revision-date: the loaded header of that name with the
+   latest revision; nothing iff none is loaded *)
+Theorem C13_bare_name_is_latest : forall hs k n, names_ok hs = true -> at_free n = true ->
+  match Registry.find (final hs) k n None with
+  | Some m => In m hs /\ h_kind m = k /\ h_name m = n /\
+              forall c, In c hs -> h_kind c = k -> h_name c = n -> str_ltb (cur m) (cur c) = false
+  | None => forall c, In c hs -> ~ (h_kind c = k /\ h_name c = n)
+  end.
+Proof. exact find_bare_latest. Qed.
+
+(* import/include with revision-date r: exactly that revision whenever it is loaded *)
+Theorem C13_revision_date_is_exact : forall hs k n r h0,
+  names_ok hs = true -> at_free n = true -> r <> [] ->
+  In h0 hs -> is_knr k n r h0 = true ->
+  exists h, Registry.find (final hs) k n (Some r) = Some h /\ In h hs /\
+            h_kind h = k /\ h_name h = n /\ cur h = r.
+Proof. exact find_exact. Qed.
+
+(* the same (kind, name, revision) loaded again is rejected, in every sequence *)
+Theorem C13_duplicate_rejected : forall pre h post,
+  names_ok (pre ++ h :: post) = true -> existsb (same_key h) pre = true ->
+  nth (length pre) (verdicts (pre ++ h :: post)) true = false.
+Proof. exact duplicate_rejected. Qed.
+
+(* a header whose kind and name were not loaded before is accepted *)
+Theorem C13_fresh_name_accepted : forall pre h post,
+  names_ok (pre ++ h :: post) = true -> existsb (same_kn (h_kind h) (h_name h)) pre = false ->
+  nth (length pre) (verdicts (pre ++ h :: post)) false = true.
+Proof. exact fresh_name_accepted. Qed.
+
+(* the verdicts of every sequence, exactly: the specified verdict, except that a header of
+   the D30 shape (no revision, not a duplicate, a same-named header with a revision loaded
+   before it) is rejected *)
+Theorem C13_verdicts_exact : forall hs, names_ok hs = true ->
+  verdicts hs = map_prefix (fun prev h => spec_ok prev h && negb (d30_shape prev h)) [] hs.
+Proof. exact verdicts_exact. Qed.
+
+(* Full statement (fails on the pinned code, D30):
+     forall hs, names_ok hs = true -> verdicts hs = spec_verdicts hs
+   i.e. a header is rejected iff its (kind, name, revision) was loaded before. *)
+Theorem C13_verdicts_partial : forall hs, names_ok hs = true -> d30_free hs = true ->
+  verdicts hs = spec_verdicts hs.
+Proof. exact verdicts_partial. Qed.
+
+Definition hB : header := {| h_id := 0; h_kind := KMod; h_name := [109]; h_revs := [[50;48;50;48;45;48;49;45;48;49]] |}%N.
+Definition hA : header := {| h_id := 1; h_kind := KMod; h_name := [109]; h_revs := [] |}%N.
+
+(* D30: module m revision 2020-01-01, then module m without revision: the second is rejected *)
+Theorem C13_verdicts_refuted : exists hs, names_ok hs = true /\ verdicts hs <> spec_verdicts hs.
+Proof. exists [hB; hA]. split; [reflexivity|]. vm_compute. discriminate. Qed.
+
+(* order independence of the bindings: both maps end up the same under every permutation
+   of headers with pairwise distinct (kind, name, revision) -- no further hypothesis *)
+Theorem C13_bindings_order_independent : forall hs hs',
+  Permutation hs hs' -> distinct_keys hs -> names_ok hs = true ->
+  forall k key, mget (sel (final hs) k) key = mget (sel (final hs') k) key.
+Proof. exact bindings_order_independent. Qed.
+
+Theorem C13_lookups_order_independent : forall hs hs',
+  Permutation hs hs' -> distinct_keys hs -> names_ok hs = true ->
+  forall k n rev, Registry.find (final hs) k n rev = Registry.find (final hs') k n rev.
+Proof. exact lookups_order_independent. Qed.
+
+(* Full statement (fails on the pinned code, D30):
+     forall hs hs', Permutation hs hs' -> distinct_keys hs -> names_ok hs = true ->
+       forallb (fun b => b) (verdicts hs') = true
+   i.e. distinct headers are all accepted in every load order.  Proved when no name occurs
+   both without and with a revision ([mixed hs = false]). *)
+Theorem C13_all_accepted_partial : forall hs hs',
+  Permutation hs hs' -> distinct_keys hs -> names_ok hs = true -> mixed hs = false ->
+  forallb (fun b => b) (verdicts hs') = true.
+Proof. exact all_accepted_partial. Qed.
+
+(* D30: accepted in one load order, rejected in the other *)
+Theorem C13_all_accepted_refuted : exists hs hs',
+  Permutation hs hs' /\ distinct_keys hs /\ names_ok hs = true /\
+  forallb (fun b => b) (verdicts hs) = true /\ forallb (fun b => b) (verdicts hs') = false.
+Proof.
+  exists [hA; hB], [hB; hA]. split; [apply perm_swap|]. split.
+  - unfold distinct_keys. vm_compute. repeat constructor; simpl; intuition discriminate.
+  - repeat split; reflexivity.
+Qed.
+
+(* ================================ (b) file chooser =================================== *)
+
+(* what a directory offers for module [name] ([spec_best]): a file of that directory that
+   belongs to the module (name.yang or name@YYYY-MM-DD.yang, never another stem), name.yang
+   whenever present, else the dated file no other dated file of the module is later than *)
+Theorem C13_offer_is_best : forall name es f, spec_best name es = Some f ->
+  In f (files es) /\ candidate name f /\
+  (In (name ++ DOT_YANG) (files es) -> f = name ++ DOT_YANG) /\
+  (f <> name ++ DOT_YANG ->
+   exists df, f = name ++ AT :: df ++ DOT_YANG /\ date_shaped df = true /\
+     forall d, date_shaped d = true -> In (name ++ AT :: d ++ DOT_YANG) (files es) -> str_ltb df d = false).
+Proof. exact spec_best_sound. Qed.
+
+Theorem C13_no_offer_no_candidate : forall name es, spec_best name es = None ->
+  forall f, In f (files es) -> ~ candidate name f.
+Proof. exact spec_best_none. Qed.
+
+(* string order on YYYY-MM-DD is calendar order *)
+Theorem C13_date_order : forall a b, date_shaped a = true -> date_shaped b = true ->
+  str_ltb a b = N.ltb (date_num a) (date_num b).
+Proof. exact date_order. Qed.
+
+(* findInDir on one directory without recursion *)
+Theorem C13_findInDir_plain : forall name n es,
+  findInDir (name ++ DOT_YANG) false (Dir n es) = option_map (fun f => [f]) (spec_best name es).
+Proof. exact findInDir_plain. Qed.
+
+(* T-b, search paths without "dir/..." elements: findFile opens the offer of the first
+   location (current directory first, then the path in order) that has one *)
+Theorem C13_findfile_plain : forall cwd path name,
+  has_slash name = false -> has_suffix name DOT_YANG = false ->
+  forallb (fun pe : pathent => negb (snd pe)) path = true ->
+  findFile cwd path name = to_outcome (spec_findFile cwd path name).
+Proof. exact findFile_plain. Qed.
+
+(* Full statement (fails on the pinned code for "dir/..." elements, see the _refuted theorem):
+     forall cwd path name, has_slash name = false -> has_suffix name DOT_YANG = false ->
+       findFile cwd path name = to_outcome (spec_findFile cwd path name)
+   where a "dir/..." element stands for dir followed by its subdirectories depth first. *)
+Theorem C13_findfile_partial : forall cwd path name,
+  has_slash name = false -> has_suffix name DOT_YANG = false ->
+  dots_nested name path = false ->
+  findFile cwd path name = to_outcome (spec_findFile cwd path name).
+Proof. exact findFile_partial. Qed.
+
+Theorem C13_findfile_fs_partial : forall root cwd path name,
+  has_slash name = false -> has_suffix name DOT_YANG = false ->
+  resolve (readDirAll root) cwd <> None ->
+  dots_nested_fs root path name = false ->
+  findFile_fs root cwd path name = to_outcome (spec_findFile_fs root cwd path name).
+Proof. exact findFile_fs_partial. Qed.
+
+(* for EVERY search path, "dir/..." included: the file opened lies in the first location any
+   of whose directories offers a file of the module, it is the offer of the directory it lies
+   in -- hence name.yang or a name@date.yang, never a file of a differently named module *)
+Theorem C13_findfile_sound : forall cwd path name f,
+  has_slash name = false -> has_suffix name DOT_YANG = false ->
+  findFile cwd path name = Ok f ->
+  exists pe q es fl,
+    nth_error ((Some cwd, false) :: path) (f_loc f) = Some pe /\
+    f_rel f = q ++ [fl] /\ In (q, es) (dirs_of pe) /\
+    spec_best name es = Some fl /\ candidate name fl /\ In fl (files es) /\
+    forall j pe', j < f_loc f -> nth_error ((Some cwd, false) :: path) j = Some pe' ->
+                  first_offer name (dirs_of pe') = None.
+Proof. exact findFile_sound. Qed.
+
+(* and nothing is opened only if no location offers anything *)
+Theorem C13_findInDir_none : forall name d,
+  findInDir (name ++ DOT_YANG) true d = None <-> any_offer name d = false.
+Proof. exact findInDir_none. Qed.
+
+Definition s_foo : str := [102;111;111]%N.
+Definition s_2020 : str := s_foo ++ [64;50;48;50;48;45;48;49;45;48;49]%N ++ DOT_YANG.
+Definition s_2019 : str := s_foo ++ [64;50;48;49;57;45;48;49;45;48;49]%N ++ DOT_YANG.
+Definition d_p : entry := Dir [112]%N [File s_2020; Dir [115]%N [File s_2019]].
+
+(* sig=findfile.dots-subdir-first: p/foo@2020-01-01.yang and p/s/foo@2019-01-01.yang, path
+   "p/...": the older file in the subdirectory is opened *)
+Theorem C13_findfile_dots_refuted : exists cwd path name,
+  has_slash name = false /\ has_suffix name DOT_YANG = false /\
+  findFile cwd path name <> to_outcome (spec_findFile cwd path name).
+Proof.
+  exists (Dir [] []), [(Some d_p, true)], s_foo. repeat split; try reflexivity.
+  vm_compute. discriminate.
+Qed.
+
+(* ==================================== non-vacuity ==================================== *)
+
+Definition hC : header := {| h_id := 2; h_kind := KMod; h_name := [109];
+                             h_revs := [[50;48;49;57]; [50;48;50;49]; [50;48;50;48]] |}%N.
+
+Example C13_lookup_ex :
+  option_map h_id (Registry.find (final [hB; hC; hA]) KMod [109]%N None) = Some 2%N /\
+  option_map h_id (Registry.find (final [hB; hC; hA]) KMod [109]%N (Some [50;48;50;48;45;48;49;45;48;49]%N)) = Some 0%N /\
+  verdicts [hB; hC; hA; hC] = [true; true; false; false] /\
+  names_ok [hB; hC; hA] = true.
+Proof. vm_compute. repeat split; reflexivity. Qed.
+
+Example C13_partial_ex :
+  d30_free [hA; hB; hC] = true /\ mixed [hB; hC] = false /\ mixed [hA; hB] = true /\
+  verdicts [hA; hB; hC] = [true; true; true].
+Proof. vm_compute. repeat split; reflexivity. Qed.
+
+Example C13_findfile_ex :
+  findFile (Dir [] []) [(None, false); (Some (Dir [120]%N [File s_2019; File s_2020; File (s_foo ++ [98]%N ++ DOT_YANG)]), false)] s_foo
+  = Ok (Found 2 [s_2020]) /\
+  dots_nested s_foo [(Some (Dir [120]%N [Dir [97]%N [File s_2019]; Dir [98]%N [File s_2020]]), true)] = false /\
+  findFile (Dir [] []) [(Some (Dir [120]%N [Dir [97]%N [File s_2019]; Dir [98]%N [File s_2020]]), true)] s_foo
+  = Ok (Found 1 [[97]%N; s_2019]) /\
+  has_slash s_foo = false /\ has_suffix s_foo DOT_YANG = false.
+Proof. vm_compute. repeat split; reflexivity. Qed.
